@@ -9,7 +9,7 @@
  "models": ["models/net_events.c", "models/net_netapi.c", "models/net_mem.c"],
  "cbmc": ["--malloc-may-fail", "--malloc-fail-null"],
  "timeout": 300,
- "assumptions": ["reader buffer <= NB_MAXOBJ (32) bytes"]
+ "assumptions": ["reader buffer <= NB_MAXOBJ (2^20) bytes"]
 }
 */
 #include <stdlib.h>
